@@ -1,5 +1,8 @@
+\* thorough: both datafile versions, full value set on every base profile, pair sweeps
 SPECIFICATION Spec
 CONSTANTS
   Versions <- V34
-  Pairs <- PairsT
+  Variants = TRUE
+  SweepLevel = 2
+  Pairs = TRUE
 INVARIANT Emit
